@@ -23,7 +23,7 @@ ASSUMPTIONS = ['floats as reals', 'L5 (a functional with zero Lie derivative is 
                'tau, gamma > 0; 0 < rho < 1', 'the [0,N] range of compartments is NOT claimed (needs model-specific invariants, DESIGN section 8)']
 OPTS = {'quick': {'max_validate': 0, 'cfg_timeout': 200}, 'thorough': {'max_validate': 0, 'cfg_timeout': 900}}
 VALIDATE = False
-MUST_EVALUATE = {'quick': ['accepted', 'times=linspace', 'row0', 'conservation', 'sir-monotone', 'full-data-row0', 'rhs-defined-at-X0']}
+MUST_EVALUATE = {'quick': ['integrator-starts-at-tmin', 'accepted', 'times=linspace', 'row0', 'conservation', 'sir-monotone', 'full-data-row0', 'rhs-defined-at-X0']}
 
 SIS_GRAPH = ['SIS_homogeneous_meanfield_from_graph', 'SIS_homogeneous_pairwise_from_graph', 'SIS_heterogeneous_meanfield_from_graph',
              'SIS_heterogeneous_pairwise_from_graph', 'SIS_compact_pairwise_from_graph', 'SIS_super_compact_pairwise_from_graph',
@@ -417,6 +417,8 @@ def _run(h, cfg, eng, EoN, an, flow):
         h.fail('conservation', {'integrator_calls': len(flow.calls)})
         return None
     call = flow.calls[0]
+    # the integration starts at tmin (from the initial vector): for scipy.integrate.ode the start time is an argument of its own
+    h.require('integrator-starts-at-tmin', EQ(list(call.times)[0], tmin), {'started_at': show(list(call.times)[0]), 'via': call.kind})
     # the right-hand side must be defined at the initial state itself (a 0/0 there makes the whole solution NaN)
     eng.div_guard = True
     st0, f0 = h.call(call.dfunc, np.array(list(call.X0), dtype=object), 0, *call.args)
@@ -576,6 +578,13 @@ def replay_concrete(cfg, kind, values, decisions):
     if kind.startswith('rhs-defined-at-X0'):
         nan = [c for c in cs if np.isnan(series[c]).any() or np.isinf(series[c]).any()]
         return {'reproduced': bool(nan), 'concrete_detail': {'nan_in': nan, 'S': series['S'].tolist()[:4]}, 'how': 'real code, real integrator'}
+    if kind == 'integrator-starts-at-tmin':
+        # autonomous systems: the run from tmin must be the run from 0 shifted by tmin
+        t0 = tmin if abs(tmin) > 1e-3 else 2.0
+        ka, kb = dict(kw, tmin=t0, tmax=t0 + 3.0), dict(kw, tmin=0.0, tmax=3.0)
+        ra, rb = f(*args, **ka), f(*args, **kb)
+        d = max(float(np.nanmax(np.abs(np.asarray(x, dtype=float) - np.asarray(y, dtype=float)))) for x, y in zip(ra[1:3], rb[1:3]))
+        return {'reproduced': d > 1e-5, 'concrete_detail': {'tmin': t0, 'max_difference_to_the_run_from_0': d}, 'how': 'real code, real integrator'}
     if kind == 'times=linspace':
         bad = not np.allclose(slot['t'], np.linspace(tmin, tmax, 7))
         return {'reproduced': bool(bad), 'concrete_detail': {'t': slot['t'].tolist()}}
